@@ -2816,7 +2816,11 @@ def fill_none(array, value, axis=ak._util.MISSING, highlevel=True, behavior=None
         )
 
     def maybe_fillna(layout):
-        if isinstance(layout, ak._util.optiontypes):
+        if isinstance(layout, ak.layout.UnmaskedArray):
+            # nothing is missing at this level; UnmaskedArray.fillna would
+            # fill every level below it as well
+            return layout.content
+        elif isinstance(layout, ak._util.optiontypes):
             return layout.fillna(valuelayout)
         else:
             return layout
